@@ -207,11 +207,38 @@ def load_known(prop, matchers):
     return out
 
 
+_LAST_EVALUATED = None
+RUNAWAY = False      # set when a case exhausted the shard's memory limit: the shard reports and stops (run_check.py)
+
+
+def _after_memory_exhaustion():
+    """The library ran into the shard's address-space limit. Freed memory does not shrink the address space (malloc
+    arenas), so the harness itself would now fail to allocate: give it 2 GB of head-room ONCE, collect garbage, and let
+    the shard stop after the current clause."""
+    global RUNAWAY
+    import gc
+    gc.collect()
+    if not RUNAWAY:
+        RUNAWAY = True
+        try:
+            import resource
+            soft, hard = resource.getrlimit(resource.RLIMIT_AS)
+            if soft != resource.RLIM_INFINITY:
+                want = soft + 2 * 2 ** 30
+                if hard != resource.RLIM_INFINITY:
+                    want = min(want, hard)
+                resource.setrlimit(resource.RLIMIT_AS, (want, hard))
+        except Exception:
+            pass
+
+
 def evaluate(clause, case, stats, known, budget=None):
     """Run one case; classify outcome. Returns None if OK / suppressed, or
     the exception if it is an unlisted violation."""
     stats.evaluations += 1
     note_case(clause.name, case)
+    global _LAST_EVALUATED
+    _LAST_EVALUATED = (clause.name, case)
     import signal
     use_alarm = CASE_TIMEOUT_S > 0 and hasattr(signal, "setitimer")
     if use_alarm:
@@ -234,6 +261,8 @@ def evaluate(clause, case, stats, known, budget=None):
         stats.skipped += 1
         return None
     except Exception as exc:   # Violation or a crash inside the library/oracle
+        if isinstance(exc, MemoryError):
+            _after_memory_exhaustion()
         for k in known:
             if k.matches(clause.name, case, exc):
                 stats.excluded_known[k.id] = stats.excluded_known.get(k.id, 0) + 1
@@ -305,6 +334,11 @@ def drive(prop, clause, n_examples, seed, known, shrink_budget_s=90.0):
     except BaseException as e:
         if isinstance(e, (KeyboardInterrupt, SystemExit)):
             raise
+        if state["best"] is None and isinstance(e, MemoryError) and _LAST_EVALUATED and _LAST_EVALUATED[0] == clause.name:
+            # memory ran out while (or right after) the library worked on a case, and the error surfaced outside the
+            # evaluation (address space exhausted): that case is the one to replay in a fresh budget
+            _after_memory_exhaustion()
+            state["best"] = json.loads(canon(_LAST_EVALUATED[1]))
         if state["best"] is None:
             # an error that did not come from a case evaluation = harness problem
             raise
